@@ -438,9 +438,23 @@ func c20Run(c *fw.Ctx, i int) {
 				return
 			}
 			name := names[rr.Intn(len(names))]
+			// a player keeps polling under the session id lal redirected it to (the session table is read for every
+			// such request) while other players arrive without one (entries are added) and old ones expire
+			path := "/hls/" + name + ".m3u8"
 			for q := 0; q < 10; q++ {
-				srv.HttpGet(s.HttpAddr(), "/hls/"+name+".m3u8", 2*time.Second)
+				code, hdr, _, err := srv.HttpGet(s.HttpAddr(), path, 2*time.Second)
 				st.inc("hls_poll")
+				if err == nil && code/100 == 3 {
+					for _, l := range strings.Split(hdr, "\r\n") {
+						if strings.HasPrefix(strings.ToLower(l), "location:") {
+							loc := strings.TrimSpace(l[9:])
+							if k := strings.Index(loc, "/hls/"); k >= 0 {
+								path = loc[k:]
+								st.inc("hls_session_redirect_followed")
+							}
+						}
+					}
+				}
 			}
 		})
 	}
